@@ -21,12 +21,12 @@ package alloctxn
 // Allocator invariant (C15-G4 / C04): every non-data block and the two reserved inodes stay marked.
 //@ predicate allocInv() = (forall b uint64 :: b < asize[theBalloc] && !validBlk(b) ==> abits[theBalloc][b]) && abits[theIalloc][0] && abits[theIalloc][1] && asize[theBalloc] == 32768*(dsksize/32768+1) && asize[theIalloc] == 32768
 
-//@ spec (*AllocTxn).AssertValidBlock
+//@ spec (*AllocTxn).AssertValidBlock(atxn, blkno)
 //@   props C11 C15
 //@   requires atxnInv(atxn)
 //@   requires [I1-valid] blkno == 0 || validBlk(blkno) @C04 @C15 @C11
 
-//@ spec (*AllocTxn).AllocBlock
+//@ spec (*AllocTxn).AllocBlock(atxn)
 //@   props C04 C05 C11 C15
 //@   requires atxnInv(atxn) && listsValid(atxn) && lastst == 0
 //@   preserves [allocInv] allocInv() @C15 @C04
@@ -42,7 +42,7 @@ package alloctxn
 //@   ensures [F5-recorded] result != 0 ==> len(atxn.allocBnums) == old(len(atxn.allocBnums)) + 1 && atxn.allocBnums[old(len(atxn.allocBnums))] == result @C05 @C09
 //@   ensures result == 0 ==> len(atxn.allocBnums) == old(len(atxn.allocBnums)) && abits == old(abits)
 
-//@ spec Begin
+//@ spec Begin(super, log, balloc, ialloc)
 //@   props C05 C09 C11
 //@   requires superInv(super) && acceptedSize(dsksize) && log != nil && balloc != nil && ialloc != nil && base(balloc) == theBalloc && base(ialloc) == theIalloc && theBalloc != theIalloc
 //@   allocates alloctxn.AllocTxn, jrnl.Op, []uint64
@@ -50,7 +50,7 @@ package alloctxn
 //@   ensures [F5-empty] len(result.allocInums) == 0 && len(result.freeInums) == 0 && len(result.allocBnums) == 0 && len(result.freeBnums) == 0 @C05 @C09
 //@   ensures result.Super == super && result.Balloc == balloc && result.Ialloc == ialloc
 
-//@ spec (*AllocTxn).AllocINum
+//@ spec (*AllocTxn).AllocINum(atxn)
 //@   props C04 C05 C11 C15
 //@   requires atxnInv(atxn) && listsValid(atxn) && lastst == 0
 //@   preserves [allocInv] allocInv() @C15 @C04
@@ -64,7 +64,7 @@ package alloctxn
 //@   ensures [F5-recorded] result != 0 ==> len(atxn.allocInums) == old(len(atxn.allocInums)) + 1 && atxn.allocInums[old(len(atxn.allocInums))] == result @C05 @C09
 //@   ensures result == 0 ==> len(atxn.allocInums) == old(len(atxn.allocInums)) && abits == old(abits)
 
-//@ spec (*AllocTxn).FreeINum
+//@ spec (*AllocTxn).FreeINum(atxn, inum)
 //@   props C05 C11
 //@   requires atxnInv(atxn) && listsValid(atxn) && lastst == 0
 //@   requires [valid] validInum(inum) @C04 @C11
@@ -74,12 +74,12 @@ package alloctxn
 
 // R3: every number in nums gets its bit written into the transaction, at an
 // address inside the bitmap region starting at blk (R8 schema: 1-bit objects).
-//@ spec (*AllocTxn).WriteBits
+//@ spec (*AllocTxn).WriteBits(atxn, nums, blk, alloc)
 //@   props C01 C11
 //@   requires atxnInv(atxn) && lastst == 0
 //@   requires [R8-bitmaprange] forall i uint64 :: i < len(nums) ==> blk + nums[i]/32768 < dsksize @C01 @C11
 
-//@ spec (*AllocTxn).PreCommit
+//@ spec (*AllocTxn).PreCommit(atxn)
 //@   props C01 C11
 //@   requires atxnInv(atxn) && listsValid(atxn) && lastst == 0
 //@   requires [R3-once] cphase == 0 @C01
@@ -87,7 +87,7 @@ package alloctxn
 //@   ghostexit cphase = 1
 //@   ensures cphase == 1
 
-//@ spec (*AllocTxn).PostCommit
+//@ spec (*AllocTxn).PostCommit(atxn)
 //@   props C05 C11 C10 C01
 //@   requires atxnInv(atxn) && listsValid(atxn)
 //@   requires [R3-after-commit] cphase == 2 || (len(atxn.freeInums) == 0 && len(atxn.freeBnums) == 0) @C01 @C05
@@ -105,7 +105,7 @@ package alloctxn
 //@   loop 1 invariant [done] forall k uint64 :: k < uint64(rangeindex+1) ==> !abits[theBalloc][atxn.freeBnums[k]]
 //@   loop 1 invariant [only] forall n uint64 :: (forall k uint64 :: k < uint64(rangeindex+1) ==> atxn.freeBnums[k] != n) ==> abits[theBalloc][n] == old(abits)[theBalloc][n]
 
-//@ spec (*AllocTxn).PostAbort
+//@ spec (*AllocTxn).PostAbort(atxn)
 //@   props C05 C09 C10 C11
 //@   requires atxnInv(atxn) && listsValid(atxn)
 //@   requires [A1-not-committed] cphase != 2 @C09 @C05 @C01
@@ -123,7 +123,7 @@ package alloctxn
 //@   loop 1 invariant [done] forall k uint64 :: k < uint64(rangeindex+1) ==> !abits[theBalloc][atxn.allocBnums[k]]
 //@   loop 1 invariant [only] forall n uint64 :: (forall k uint64 :: k < uint64(rangeindex+1) ==> atxn.allocBnums[k] != n) ==> abits[theBalloc][n] == old(abits)[theBalloc][n]
 
-//@ spec (*AllocTxn).ReadBlock
+//@ spec (*AllocTxn).ReadBlock(atxn, blkno)
 //@   props C01 C11
 //@   requires atxnInv(atxn) && lastst == 0
 //@   requires [I1-valid] validBlk(blkno) @C04 @C11 @C01
@@ -132,7 +132,7 @@ package alloctxn
 
 // Z1 (C12): a freed block is zero-filled inside the freeing transaction, so a
 // later allocation of it starts from zeros.
-//@ spec (*AllocTxn).ZeroBlock
+//@ spec (*AllocTxn).ZeroBlock(atxn, blkno)
 //@   props C12 C11
 //@   requires atxnInv(atxn) && lastst == 0
 //@   requires [I1-valid] validBlk(blkno) @C04 @C11
@@ -144,7 +144,7 @@ package alloctxn
 //@   ensureslocal [Z1-zeroed] buf.Addr.Blkno == blkno && len(buf.Data) == 4096 && (forall j uint64 :: j < 4096 ==> buf.Data[j] == 0) @C12
 //@   loop 0 invariant len(buf.Data) == 4096 && uint64(rangeindex+1) <= 4096 && (forall j uint64 :: j < uint64(rangeindex+1) ==> buf.Data[j] == 0)
 
-//@ spec (*AllocTxn).FreeBlock
+//@ spec (*AllocTxn).FreeBlock(atxn, blkno)
 //@   props C12 C05 C11
 //@   requires atxnInv(atxn) && listsValid(atxn) && lastst == 0
 //@   requires [I1-valid] blkno == 0 || validBlk(blkno) @C04 @C11
